@@ -186,7 +186,164 @@ pub mod typechecker {
         }
 
         include!("harness.rs");
+
+        /// C13-U2: the arms of `TypeChecker::expr` that open a new scope (block, if/else, while, for),
+        /// verbatim, against the real ScopeGraph above and a TypeChecker stand-in whose `block` /
+        /// `expr` / `insert_var` record the scope they are given.
+        pub mod expr_unit {
+            use super::{DeclarationKind, ResolvedName, ScopeGraph, ScopeRef, ScopeType};
+            use crate::ast::Identifier;
+            use crate::parser::meta::{Meta, MetaId};
+
+            /// opaque syntax: the arms only pass these on
+            #[derive(Clone, Debug)]
+            pub struct Expr(pub u8);
+            #[derive(Clone, Debug)]
+            pub struct Block(pub u8);
+            pub mod ast {
+                pub use super::{Block, Expr};
+            }
+
+            #[derive(Clone, Copy, Debug, PartialEq, Eq)]
+            pub enum Type {
+                Bool,
+                Unit,
+                Var(u8),
+                List(u8),
+                Other,
+            }
+            impl Type {
+                pub fn bool() -> Type {
+                    Type::Bool
+                }
+                pub fn unit() -> Type {
+                    Type::Unit
+                }
+                pub fn list(t: &Type) -> Type {
+                    match t {
+                        Type::Var(v) => Type::List(*v),
+                        _ => Type::Other,
+                    }
+                }
+            }
+            impl From<&Type> for Type {
+                fn from(t: &Type) -> Type {
+                    *t
+                }
+            }
+            #[derive(Clone)]
+            pub struct Context {
+                pub expected_type: Type,
+            }
+            impl Context {
+                pub fn with_type(&self, t: impl Into<Type>) -> Context {
+                    Context { expected_type: t.into() }
+                }
+            }
+            #[derive(Debug)]
+            pub struct TypeError;
+            pub type TypeResult<T> = Result<T, TypeError>;
+
+            pub struct Diverges {
+                pub last: Option<(MetaId, bool)>,
+            }
+            impl Diverges {
+                pub fn insert(&mut self, id: MetaId, d: bool) {
+                    self.last = Some((id, d));
+                }
+            }
+            pub struct TypeInfo {
+                pub scope_graph: ScopeGraph,
+                pub diverges: Diverges,
+            }
+
+            /// what the stand-in callees saw
+            #[derive(Clone, Copy, Debug, PartialEq, Eq)]
+            pub enum Seen {
+                Expr(u8, ScopeRef, Type),
+                Block(u8, ScopeRef, Type),
+                Var(u32, ScopeRef, Type),
+                Unify(Type, Type),
+            }
+            pub struct TypeChecker {
+                pub type_info: TypeInfo,
+                pub block_counter: usize,
+                pub if_else_counter: usize,
+                pub while_counter: usize,
+                pub for_counter: usize,
+                pub next_var: u8,
+                pub log: [Option<Seen>; 6],
+                pub n: usize,
+                /// symbolic results of the callees
+                pub expr_diverges: bool,
+                pub block_diverges: [bool; 2],
+                pub blocks_seen: usize,
+                /// block k declares the name LOCAL in the scope it is given (as a `let` would)
+                pub block_declares: [bool; 2],
+                /// for each block: could it see LOCAL / OUTER when it was checked?
+                pub block_saw_local: [bool; 2],
+                pub block_saw_outer: [bool; 2],
+            }
+            pub const LOCAL: u32 = 7;
+            pub const OUTER: u32 = 8;
+            impl TypeChecker {
+                fn record(&mut self, s: Seen) {
+                    assert!(self.n < 6, "shim: log full");
+                    self.log[self.n] = Some(s);
+                    self.n += 1;
+                }
+                pub fn expr(&mut self, scope: ScopeRef, ctx: &Context, e: &Meta<Expr>) -> TypeResult<bool> {
+                    self.record(Seen::Expr(e.node.0, scope, ctx.expected_type));
+                    Ok(self.expr_diverges)
+                }
+                /// contract stand-in of TypeChecker::block: names are looked up from, and declared in,
+                /// exactly the scope it is given (through the real ScopeGraph)
+                pub fn block(&mut self, scope: ScopeRef, ctx: &Context, b: &Meta<Block>) -> TypeResult<bool> {
+                    self.record(Seen::Block(b.node.0, scope, ctx.expected_type));
+                    let k = self.blocks_seen;
+                    assert!(k < 2, "shim: more than two blocks");
+                    self.blocks_seen += 1;
+                    let probe = |x: u32| Meta { node: Identifier(x), id: MetaId(900) };
+                    self.block_saw_local[k] = self.type_info.scope_graph.resolve_name(scope, &probe(LOCAL), true).is_some();
+                    self.block_saw_outer[k] = self.type_info.scope_graph.resolve_name(scope, &probe(OUTER), true).is_some();
+                    if self.block_declares[k] {
+                        let _ = self.type_info.scope_graph.insert_declaration(scope, &Meta { node: Identifier(LOCAL), id: MetaId(800 + k) }, DeclarationKind::Value, crate::shim::String, |_| false);
+                    }
+                    Ok(self.block_diverges[k])
+                }
+                pub fn unify(&mut self, a: &Type, b: &Type, _id: MetaId, _span: Option<()>) -> TypeResult<Type> {
+                    self.record(Seen::Unify(*a, *b));
+                    Ok(*b)
+                }
+                pub fn fresh_var(&mut self) -> Type {
+                    self.next_var += 1;
+                    Type::Var(self.next_var)
+                }
+                pub fn insert_var(&mut self, scope: ScopeRef, name: Meta<Identifier>, ty: Type) -> TypeResult<()> {
+                    self.record(Seen::Var(name.node.0, scope, ty));
+                    let _ = self.type_info.scope_graph.insert_declaration(scope, &name, DeclarationKind::Value, crate::shim::String, |_| false);
+                    Ok(())
+                }
+
+                pub fn arm_block(&mut self, scope: ScopeRef, ctx: &Context, id: MetaId, b: &Meta<ast::Block>) -> TypeResult<bool>
+                /*@ARM_BLOCK_BODY@*/
+
+                pub fn arm_if_else(&mut self, scope: ScopeRef, ctx: &Context, id: MetaId, c: &Box<Meta<ast::Expr>>, t: &Meta<ast::Block>, e: &Option<Meta<ast::Block>>) -> TypeResult<bool>
+                /*@ARM_IFELSE_BODY@*/
+
+                pub fn arm_while(&mut self, scope: ScopeRef, ctx: &Context, id: MetaId, c: &Box<Meta<ast::Expr>>, b: &Meta<ast::Block>) -> TypeResult<bool>
+                /*@ARM_WHILE_BODY@*/
+
+                pub fn arm_for(&mut self, scope: ScopeRef, ctx: &Context, id: MetaId, name: &Meta<Identifier>, e: &Box<Meta<ast::Expr>>, b: &Meta<ast::Block>) -> TypeResult<bool>
+                /*@ARM_FOR_BODY@*/
+            }
+            // the patterns the parameter lists above were written for (assembly fails if they change)
+            pub const PATTERNS: [&str; 4] = [/*@ARM_BLOCK_PAT@*/, /*@ARM_IFELSE_PAT@*/, /*@ARM_WHILE_PAT@*/, /*@ARM_FOR_PAT@*/];
+
+            include!("harness_expr.rs");
+        }
     }
+
 }
 
 fn main() {}
